@@ -173,6 +173,10 @@ def check(ctx):
                     st = st.with_flag('STAMP-NOT-NOW:' + fld)
                 elif before.fields.get(fld) == 'S':
                     st = st.with_flag('LOST-INTERVAL:' + fld)       # re-stamping an open interval discards it
+                else:
+                    st = st.with_flag('stamped:' + fld)
+                if before.fields.get(fld) == 'S' and n.frame.func.name == 'initialize':
+                    st = st.with_flag('stamped:' + fld)          # the constructor's placeholder is replaced by the initialisation time
                 st = st.with_field(fld, 'S')
         return st
     dom = dv.base_domain(P, c)
@@ -210,8 +214,9 @@ def check(ctx):
         f = dict(st.fields)
         if f.get('_block_input') == TOP:
             f['_block_input'] = 'F'
-        if not acc_inv(f) or any(fl.split(':')[0] in ('ACC-WRONG', 'STAMP-NOT-NOW') for fl in st.flags):
-            o.fail(P, 'PartProcessor.initialize', 'self._last_restore = self.env.now', f'after construction and initialisation the accounting state is {st.show()}',
+        if not acc_inv(f) or any(fl.split(':')[0] in ('ACC-WRONG', 'STAMP-NOT-NOW') for fl in st.flags) or 'stamped:_last_restore' not in st.flags:
+            o.fail(P, 'PartProcessor.initialize', 'self._last_restore = self.env.now', f'after construction and initialisation the accounting state is {st.show()} (the open uptime interval of a running machine must start at its initialisation time, '
+                   'stamped by initialize(): a machine created while the simulation runs would otherwise be credited with the time before it existed)',
                    file=c.mod.path, line=c.node.lineno)
         else:
             o.witness('base')
